@@ -69,6 +69,21 @@ def run_score(key):
                 return viol(f'{alg}/{dtype.__name__}: assignment differs from reference rule',
                             m.tolist(), ref.tolist())
             outs.append(tuple(m.tolist()))
+    # the assignment depends only on the order of the scores: positive rescaling and shifting by huge or
+    # tiny finite amounts must still give a permutation (and, where exact, the same one)
+    for scale, shift in ((1e17, 0.0), (1e-17, 0.0), (1e300, 0.0), (2.0 ** 55, -2.0 ** 60), (1.0, 2.0 ** 50)):
+        S2 = M.astype(np.float64) * scale + shift
+        for alg in ALGS:
+            try:
+                m2 = np.asarray(pa._mapping_from_score_matrix(S2, algorithm=alg))
+            except Exception as e:  # noqa
+                return viol(f'_mapping_from_score_matrix raised {e!r} for scores scaled by {scale}, shifted by {shift}')
+            if sorted(m2.tolist()) != list(range(K)):
+                return viol(f'{alg}: assignment {m2.tolist()} is not a permutation for scores scaled by {scale} '
+                            f'and shifted by {shift}', S2.tolist())
+            if alg == 'greedy' and m2.tolist() != R.assign(M, alg).tolist():
+                return viol(f'greedy assignment changes under order-preserving rescaling ({scale}, {shift})',
+                            m2.tolist(), R.assign(M, alg).tolist())
     flags = []
     if outs[0] != outs[1]:
         flags.append('greedy_ne_optimal')
@@ -76,7 +91,7 @@ def run_score(key):
         flags.append('identity')
     else:
         flags.append('non_identity')
-    return ok(outcome=str(outs), evals=4, flags=flags, states=1, transitions=4)
+    return ok(outcome=str(outs), evals=14, flags=flags, states=1, transitions=14)
 
 
 def run_score_stack(key):
@@ -299,6 +314,10 @@ def run_generic(key):
         mask[:, F // 3] = 0.0
     elif key['kind'] == 'tied_rows':
         mask[1 % K, :, :] = mask[0, :, :]
+    elif key['kind'] == 'huge':
+        mask = mask * 1e9
+    elif key['kind'] == 'tiny':
+        mask = mask * 1e-150
     mask.setflags(write=False)
     snap = mask.copy()
     evals = 0
@@ -327,7 +346,7 @@ def run_generic(key):
         bad = _check_mapping(pa, mask, m, what)
         if bad:
             return bad
-        if not amb and key['kind'] == 'generic' and not np.array_equal(m, ref):
+        if not amb and key['kind'] in ('generic', 'huge') and not np.array_equal(m, ref):
             return viol(f'{what}: mapping differs from the reference procedure',
                         np.asarray(m).tolist(), ref.tolist())
         evals += 1
@@ -592,7 +611,7 @@ def subchecks(tier, seed):
                         for alg in ALGS:
                             if K > 4 and alg == 'optimal' and F > 9:
                                 continue
-                            for kind in ('generic', 'const_rows', 'zero_bin', 'tied_rows'):
+                            for kind in ('generic', 'const_rows', 'zero_bin', 'tied_rows', 'huge', 'tiny'):
                                 yield (K, F, T, metric, alg, kind, seed)
     subs.append(Sub('masks_generic', ('K', 'F', 'T', 'metric', 'alg', 'kind', 'seed'),
                     generic_cases, run_generic,
